@@ -13,3 +13,20 @@ Proof. exact LebProofs.read_uleb128_total. Qed.
 
 Theorem sleb_no_panic : forall (dbg : bool) (bs : list byte), read_sleb128 dbg bs <> Panic /\ read_sleb128 dbg bs <> OutOfFuel.
 Proof. exact LebProofs.read_sleb128_total. Qed.
+
+(* ---- instances imported from the per-property developments (each is an `exact` of a theorem proved there) ---- *)
+Require Import GV.Properties.C09 GV.Properties.C10.
+Require Import GV.Model.Cursor GV.Spec.CursorSpec GV.Proofs.CursorProofs.
+
+(* the 16-bit LEB reader: its `result += byte << 14` can never overflow *)
+Theorem uleb16_no_panic : forall bs, read_uleb128_u16 bs <> Panic /\ read_uleb128_u16 bs <> OutOfFuel.
+Proof. exact C09.uleb16_never_panics. Qed.
+
+(* every Reader operation of the slice/shared-buffer readers, for every reader inside its section, every
+   argument (in range or not), both build modes: no SubRange assert, no debug_assert, no overflow — the only
+   panic is the documented out-of-range `read_uint(n > 8)`, and none of the parsers calls it with n > 8 *)
+Theorem reader_ops_no_panic : forall dbg be root c op,
+  Inv root -> wf_alloc root -> Sub root c ->
+  (snd (step dbg be root c op) = Panic -> exists n, op = CReadUint n /\ (8 < n)%nat) /\
+  snd (step dbg be root c op) <> OutOfFuel.
+Proof. exact C10.only_read_uint_panics. Qed.
